@@ -94,14 +94,14 @@ func procCPU(pid int) float64 {
 type pool struct {
 	failures int // crashes + hangs so far; restarts stop after maxFailures
 	skipped  int
-	agg     *Agg
-	prop    *Property
-	group   string
-	cl      *caseList
-	dir     string
-	nshards int
-	race    bool
-	exe     string
+	agg      *Agg
+	prop     *Property
+	group    string
+	cl       *caseList
+	dir      string
+	nshards  int
+	race     bool
+	exe      string
 }
 
 func (p *pool) start(shard, gen, startK int) (*wproc, error) {
@@ -728,17 +728,17 @@ func RunCheck(id, tier string, seed uint64) int {
 		}
 	}
 	cov := map[string]any{
-		"evaluations":               total,
-		"distinct_nontrivial":       agg.Distinct,
-		"rule":                      prop.Rule,
-		"samples":                   samples,
-		"per_engine":                agg.Evaluations,
-		"observed":                  agg.Cov,
-		"inconclusive":              agg.Inconclusive,
-		"known_findings_open":       knownOpen,
-		"fixed_findings_rechecked":  fixedChecked,
+		"evaluations":                total,
+		"distinct_nontrivial":        agg.Distinct,
+		"rule":                       prop.Rule,
+		"samples":                    samples,
+		"per_engine":                 agg.Evaluations,
+		"observed":                   agg.Cov,
+		"inconclusive":               agg.Inconclusive,
+		"known_findings_open":        knownOpen,
+		"fixed_findings_rechecked":   fixedChecked,
 		"suppressed_by_open_finding": suppressed,
-		"violation_signatures":      sigs,
+		"violation_signatures":       sigs,
 	}
 	if anyExh {
 		var exh []string
